@@ -7,8 +7,8 @@ import common
 from common import coq_list
 
 # objects: names -> numbers used by the model
-NAMES = {'a': 1, 'b': 2, 'p': 3, 'u': 4, 'k': 5, 'sol': 6, 'sf': 7, 'sc': 8, 'a2': 1, 'p:s': 3}     # a2: a second, different object that is also named 'a'; p:s: a row of plate p
-REAL = {'a2': 'a'}
+NAMES = {'a': 1, 'b': 2, 'p': 3, 'u': 4, 'b[2]': 4, 'k': 5, 'sol': 6, 'sf': 7, 'sc': 8, 'a2': 1, 'p:s': 3}     # a2: a second, different object that is also named 'a'; p:s: a row of plate p
+REAL = {'a2': 'a', 'u': 'b[2]'}      # object u is NAMED 'b[2]': a name is an arbitrary string, and 'b' is another object
 STAGES = {'all': 0, 's1': 1, 's2': 2}
 RULE = ('complete enumeration: every call of the 38-call alphabet from every distinct lifecycle state reachable in <= N calls '
         '(N = 4 quick, 5 thorough), one representative path per state; non-trivial = every (state, call) pair; '
@@ -37,7 +37,7 @@ class World:
             'a': Container.create_solution(self.salt, self.water, 'a', concentration='1 M', total_quantity='10 mL'),
             'b': Container('b'),
             'p': Plate('p', '1 mL', rows=2, columns=2),
-            'u': Container('u', initial_contents=[(self.water, '5 mL'), (self.salt, '1 mmol')]),
+            'u': Container('b[2]', initial_contents=[(self.water, '5 mL'), (self.salt, '1 mmol')]),
             'a2': Container('a', initial_contents=[(self.water, '40 mL'), (self.salt, '5 mmol')]),
         }
         self.recipe = Recipe()
@@ -189,7 +189,7 @@ def oracle(path, c, out, before, after, baked_keys):
         return fails
     operands = {'transfer': c[1:3], 'remove': c[1:2], 'dilute': c[1:2], 'dilute_rename': c[1:2], 'fill_to': c[1:2],
                 'create_solution_from': c[1:2], 'create_solution': (c[2],) if k == 'create_solution' and c[2] else ()}.get(k, ())
-    operands = tuple(o.split(':')[0] for o in operands)      # a slice stands for its plate
+    operands = tuple(REAL.get(o.split(':')[0], o.split(':')[0]) for o in operands)      # a slice stands for its plate; objects are known by their names
     if any(o not in decl for o in operands):
         if out[0] == 'ok':
             fails.append(f"{c} uses an object that was never declared but was accepted")
@@ -225,6 +225,28 @@ def oracle(path, c, out, before, after, baked_keys):
         fails.append(f"a refused bake ({out[1]}) locked the recipe: only a successful bake does")
     if out[0] != 'ok' and k not in ('uses', 'uses_iter', 'uses_list') and k != 'bake' and after != before:
         fails.append(f"rejected call {c} changed the recipe state")
+    return fails
+
+
+def probe_other_arguments():
+    """uses() takes containers, plates and iterables of them: a dict (what bake returns), a string or a number is refused and
+    leaves the recipe as it was -- also when the dict holds an object whose name is declared already"""
+    fails = []
+    for setup in ((), (('uses', ('a',)),), (('uses', ('a', 'b')), ('transfer', 'a', 'b'))):
+        for what in ('dict', 'str', 'int'):
+            w = World()
+            for c in setup:
+                apply(w, c)
+            before = w.key()
+            arg = {'dict': {'a': w.objs['a2'], 'b': w.objs['b']}, 'str': 'a', 'int': 3}[what]
+            try:
+                w.recipe.uses(arg)
+                out = ('ok',)
+            except Exception as e:  # noqa
+                out = ('exc', common.exc_class(e))
+            if out[0] == 'ok' or w.key() != before:
+                fails.append((f"after {setup}: uses({what}) -> {out}; the recipe state {'changed' if w.key() != before else 'is unchanged'} "
+                              f"(declared names now {list(w.recipe.results)})", {'calls': [list(x) for x in setup] + [['uses_' + what]], 'kind': 'other-argument'}))
     return fails
 
 
@@ -297,6 +319,9 @@ def run(chk, gate, status):
                                'model': str((mo, ms))}, found_input=False)
         if idx % 1500 == 0 and len(samples) < 4:
             samples.append({'calls': str(path + (c,))[:200], 'impl': str((out[:2], after))[:160], 'model': str((mo, ms))[:160]})
+    for msg, doc in probe_other_arguments()[:3]:
+        nfail += 1
+        chk.violation(msg, doc)
     if errors:
         chk.violation('model evaluation failed: ' + errors[0][:300], {'relation': 'coq_eval C16'}, found_input=False)
     chk.assumptions += ["arguments are well typed and the chemistry of every step is feasible (1 uL transfers out of 10 mL); only the lifecycle is varied",
@@ -310,6 +335,12 @@ def run(chk, gate, status):
 def replay(path):
     r = json.load(open(path))
     print(json.dumps(r, indent=1)[:2500])
+    if r.get('kind') == 'other-argument':
+        f = probe_other_arguments()
+        for msg, _ in f:
+            print('PROPERTY FAILS:', msg)
+        print('property', 'FAILS' if f else 'HOLDS', 'on this input')
+        return 1 if f else 0
     if 'calls' not in r:
         return 1
     w = World()
